@@ -1,6 +1,6 @@
 ----------------------------- MODULE Forward -----------------------------
 (***************************************************************************)
-(* C14 -- plugin/executable/forward/forward.go : (*Forward).exchange       *)
+(* C14 -- plugin/executable/forward/forward.go : Forward.exchange          *)
 (*                                                                         *)
 (*   configuration (Init)  n = |U| (the list after tag selection), c the   *)
 (*                         configured concurrency, k = clamp(c, 1, 3),     *)
@@ -45,6 +45,11 @@ VARIABLES
     hist
 
 vars == <<n, c, start, wpc, pos, out, collected, cpc, result, done, ctxDone, hist>>
+
+\* named sets for the cfg files (a cfg cannot write a negative number)
+CsFull == {-1, 0, 1, 2, 3, 5}
+CsLive == {-1, 1, 2, 3, 5}
+CsLow == {-1, 0, 1}
 
 Clamp(x) == IF x <= 0 THEN 1 ELSE IF x > 3 THEN 3 ELSE x
 K == IF Bug = "no_clamp" THEN (IF c <= 0 THEN 1 ELSE c) ELSE Clamp(c)
@@ -105,7 +110,7 @@ QuitDone(i) ==
     /\ UNCHANGED <<n, c, start, pos, out, collected, cpc, result, done, ctxDone, hist>>
 
 CallerCtx ==
-    /\ cpc = "collect" /\ ctxDone /\ Bug # "ignore_ctx"
+    /\ cpc = "collect" /\ (ctxDone \/ Bug = "ctx_anytime") /\ Bug # "ignore_ctx"
     /\ Eager => Pending = {}
     /\ cpc' = "done" /\ result' = [k |-> "ctx", w |-> 0]
     /\ H([a |-> "CallerCtx"])
@@ -127,6 +132,12 @@ Env == (\E i \in 1..5, o \in Outcomes : Finish(i, o)) \/ Cancel
 Next == Internal \/ Env
 
 Spec == Init /\ [][Next]_vars
+
+\* no step of the code is enabled: it waits for the environment (a silent upstream, the caller)
+Quiescent ==
+    /\ \A i \in W : wpc[i] # "init"
+    /\ cpc = "collect" => (Pending = {} /\ ~ctxDone)
+    /\ cpc = "done" => (done /\ Pending = {})
 \* the code makes progress on its own; upstreams need not answer
 FairCode == Spec /\ WF_vars(Internal)
 \* ... but every exchange ends at the latest when the worker's 5 s timer fires
